@@ -203,6 +203,8 @@ var required = []struct{ name, typ string }{
 	{"buttonDrawBody", "L"}, {"centerDrawBody", "L"}, {"richtextDrawBody", "L"}, {"richtextDrawSoftwrapBody", "L"},
 	{"richtextFindContainerSizeBody", "L"}, {"textDrawBody", "L"}, {"textDrawSoftwrapBody", "L"}, {"textFindContainerSizeBody", "L"},
 	{"textfieldDrawBody", "L"}, {"dynamicChildCtx", "L"},
+	// round 3 (ellipsis.go)
+	{"textEllipsisCond", "E"}, {"richEllipsisCond", "E"},
 }
 
 func gen(c *ex.Ctx) {
@@ -226,6 +228,11 @@ func gen(c *ex.Ctx) {
 			fmt.Fprintf(&sb, "def %s : List (String × SzArg × SzArg) := []\n", r.name)
 		case "P":
 			fmt.Fprintf(&sb, "def %s : List (String × String) := [(\"?unrecognised\", \"?unrecognised\")]\n", r.name)
+		case "E":
+			if !strings.Contains(sb.String(), "\ninductive EllAtom where") {
+				sb.WriteString(ellAtomDecl)
+			}
+			fmt.Fprintf(&sb, "def %s : List EllAtom := [.other \"?unrecognised\"]\n", r.name)
 		case "B":
 			fmt.Fprintf(&sb, "def %s : Bool := true\n", r.name)
 		case "F":
@@ -238,6 +245,7 @@ func gen(c *ex.Ctx) {
 }
 
 func genBody(c *ex.Ctx, sbp *strings.Builder) {
+	defer genEllipsis(c, sbp)
 	defer genRound2(c, sbp)
 	vx := c.Parse("vxfw/vxfw.go")
 	txt := c.Parse("vxfw/text/text.go")
